@@ -525,3 +525,53 @@ package defaultgrouper
 //@   pure
 //@   ensures ownerKind(u) == kind
 //@ end
+
+// NestedMap / NestedSlice / NestedStringSlice return deep copies; the copy is treated as a function of (tree, path)
+// (read-only use by the groupers), its elements are opaque interface values (nested trees keep their identity, so the
+// Nested* functions above apply to them again).
+//@ declare nMap(o map[string]interface{}, p int) map[string]interface{}
+//@ declare nMapFound(o map[string]interface{}, p int) bool
+//@ declare nMapErr(o map[string]interface{}, p int) error
+//@ func k8s.io/apimachinery/pkg/apis/meta/v1/unstructured.NestedMap
+//@   trusted
+//@   note library (apimachinery helpers.go), returns a deep copy: modelled as a function of (tree, path), read-only use
+//@   pure
+//@   ensures result0 == nMap(obj, pathKey(fields))
+//@   ensures result1 == nMapFound(obj, pathKey(fields))
+//@   ensures result2 == nMapErr(obj, pathKey(fields))
+//@   ensures result2 != nil ==> !result1
+//@   ensures !result1 ==> result0 == nil
+//@   ensures result1 ==> result0 != nil
+//@ end
+
+//@ declare nSliceLen(o map[string]interface{}, p int) int
+//@ declare nSliceAt(o map[string]interface{}, p int, i int) interface{}
+//@ declare nSliceFound(o map[string]interface{}, p int) bool
+//@ declare nSliceErr(o map[string]interface{}, p int) error
+//@ axiom forall o map[string]interface{}, p int :: nSliceLen(o, p) >= 0
+//@ func k8s.io/apimachinery/pkg/apis/meta/v1/unstructured.NestedSlice
+//@   trusted
+//@   note library (apimachinery helpers.go), returns a deep copy: length and elements modelled as functions of (tree, path), read-only use
+//@   pure
+//@   ensures len(result0) == ite(result1, nSliceLen(obj, pathKey(fields)), 0)
+//@   ensures forall i int :: 0 <= i && i < len(result0) ==> result0[i] == nSliceAt(obj, pathKey(fields), i)
+//@   ensures result1 == nSliceFound(obj, pathKey(fields))
+//@   ensures result2 == nSliceErr(obj, pathKey(fields))
+//@   ensures result2 != nil ==> !result1
+//@ end
+
+//@ declare nStrsLen(o map[string]interface{}, p int) int
+//@ declare nStrsAt(o map[string]interface{}, p int, i int) string
+//@ declare nStrsFound(o map[string]interface{}, p int) bool
+//@ declare nStrsErr(o map[string]interface{}, p int) error
+//@ axiom forall o map[string]interface{}, p int :: nStrsLen(o, p) >= 0
+//@ func k8s.io/apimachinery/pkg/apis/meta/v1/unstructured.NestedStringSlice
+//@   trusted
+//@   note library (apimachinery helpers.go), returns a copy: length and elements modelled as functions of (tree, path)
+//@   pure
+//@   ensures len(result0) == ite(result1, nStrsLen(obj, pathKey(fields)), 0)
+//@   ensures forall i int :: 0 <= i && i < len(result0) ==> result0[i] == nStrsAt(obj, pathKey(fields), i)
+//@   ensures result1 == nStrsFound(obj, pathKey(fields))
+//@   ensures result2 == nStrsErr(obj, pathKey(fields))
+//@   ensures result2 != nil ==> !result1
+//@ end
